@@ -119,6 +119,8 @@ func verifC07Env(version uint) (*Repository, *verifC07Backend, *verifC07Zstd) {
 	verifrt.Stub("(*github.com/klauspost/compress/zstd.Decoder).DecodeAll", z.decodeAll)
 	be := &verifC07Backend{}
 	r := &Repository{be: be, key: &crypto.Key{}, cfg: restic.Config{Version: version}}
+	// --compression auto|off|max|fastest: unpacked files are encoded the same way in every mode
+	r.opts.Compression = CompressionMode(verifrt.Int("compression", 0, 3))
 	return r, be, z
 }
 
